@@ -13,7 +13,7 @@ import time
 from symx import shims, gabs
 from symx import latticelib as LL
 from symx.absmap import NAMED, library
-from symx.common import Report, import_repo, src_hash, VERIF
+from symx.common import Report, import_repo, src_hash, VERIF, REPO
 
 PID = 'C04'
 
@@ -97,7 +97,7 @@ def run_instance(inst):
 def run_crosshair(tier):
     """CrossHair (second engine): node_path_to_only_nodes over symbolic int labels.  Returns dict(confirmed, refuted, unknown, out)."""
     t0 = time.time()
-    env = dict(os.environ, PYTHONPATH=f"/repo:{VERIF}")
+    env = dict(os.environ, PYTHONPATH=f"{REPO}:{VERIF}")
     to = '20' if tier == 'quick' else '90'
     cmd = [sys.executable, '-m', 'crosshair', 'check', '--report_all', '--per_condition_timeout', to,
            os.path.join(VERIF, 'harness', 'crosshair_c04.py')]
